@@ -190,7 +190,7 @@ func c07Round(c *Ctx, idx int) (ops [][]c07Op, vals []c07Val, nKeys int, st c07S
 					v := vals[s.val]
 					op.Val = s.val
 					op.Call = int64(time.Since(start))
-					mc.Store(keys[s.key], v.stored, v.expire, valBytes[s.val], s.nx)
+					mcStore(mc, keys[s.key], v.stored, v.expire, valBytes[s.val], s.nx)
 					op.Ret = int64(time.Since(start))
 				} else {
 					op.Call = int64(time.Since(start))
